@@ -416,7 +416,11 @@ pub fn judge_responses(frames: &[SFrame], limit: u32, out: &[u8], closed: bool, 
                     }
                     ri += 1;
                 } else if !quiet {
-                    v.push((vec!["C12", "C18"], format!("frame {}: loud request opcode {:#x} opaque {:#x} has no response at its place in the response stream (next response: {:?})", fi, f.opcode, f.opaque, next.map(|r| (r.opcode, r.opaque)))));
+                    let mut props = vec!["C12", "C18"];
+                    if !oversized_since.is_empty() || frames[..fi].iter().any(|x| matches!(x.kind, Kind::Oversize)) {
+                        props.push("C13"); // the requests behind a refused oversized one must be served normally
+                    }
+                    v.push((props, format!("frame {}: loud request opcode {:#x} opaque {:#x} has no response at its place in the response stream (next response: {:?})", fi, f.opcode, f.opaque, next.map(|r| (r.opcode, r.opaque)))));
                     return v;
                 }
             }
@@ -479,7 +483,13 @@ pub fn judge_responses(frames: &[SFrame], limit: u32, out: &[u8], closed: bool, 
         let nonstd = frames.iter().any(|f| matches!(f.kind, Kind::NonStd));
         // bytes of a non-standard frame's body answered as requests of their own: the frame was not taken from exactly
         // the 24 + body-length bytes its header announces (C09)
-        let props: Vec<&'static str> = if after_quit { vec!["C12"] } else if faulty { vec!["C18", "C10", "C12"] } else if nonstd { vec!["C09", "C12", "C10"] } else { vec!["C12", "C10"] };
+        let mut props: Vec<&'static str> = if after_quit { vec!["C12"] } else if faulty { vec!["C18", "C10", "C12"] } else if nonstd { vec!["C09", "C12", "C10"] } else { vec!["C12", "C10"] };
+        // a response that echoes the opcode and opaque of no request of the stream cannot be matched by the client (C11)
+        if let Some(x) = &r {
+            if !frames.iter().any(|f| f.opcode == x.opcode && f.opaque == x.opaque) {
+                props.push("C11");
+            }
+        }
         v.push((props, format!("{} response(s) beyond what the request stream calls for, first: {:?}", resps.len() - ri, r.map(|r| (r.opcode, r.opaque, r.status)))));
     }
     let must_close = frames.iter().any(|f| matches!(f.kind, Kind::Quit | Kind::QuitQ | Kind::BadHeader));
